@@ -5,7 +5,10 @@ package raft
 // Exports for the verification harness in /verif. This file is compiled only
 // with the "verif" build tag, adds no behaviour and changes no existing line.
 
-import "time"
+import (
+	"errors"
+	"time"
+)
 
 // VerifCommitment wraps the unexported commitment tracker.
 type VerifCommitment struct {
@@ -151,4 +154,47 @@ func (r *Raft) VerifLeaderStartIndex() (uint64, bool) {
 	c.Lock()
 	defer c.Unlock()
 	return c.startIndex, true
+}
+
+// ErrVerifPanicked reports that the stepped function panicked on its own goroutine.
+var ErrVerifPanicked = errors.New("verif: panicked")
+
+// VerifTakeSnapshot runs takeSnapshot on its own goroutine (as runSnapshots
+// does) and, on the calling goroutine, serves the configuration requests it
+// makes exactly as every run loop does.
+func (r *Raft) VerifTakeSnapshot() (string, error) {
+	type res struct {
+		id  string
+		err error
+	}
+	done := make(chan res, 1)
+	go func() {
+		// a store that panics stands for the process dying at that write
+		defer func() {
+			if p := recover(); p != nil {
+				done <- res{"", ErrVerifPanicked}
+			}
+		}()
+		id, err := r.takeSnapshot()
+		done <- res{id, err}
+	}()
+	for {
+		select {
+		case c := <-r.configurationsCh:
+			c.configurations = r.configurations.Clone()
+			c.respond(nil)
+		case x := <-done:
+			return x.id, x.err
+		}
+	}
+}
+
+// VerifBreakSinkStateFile closes the state file behind a file snapshot sink's
+// back, so that the next write, flush or sync of it fails (an I/O fault).
+func VerifBreakSinkStateFile(s SnapshotSink) bool {
+	fs, ok := s.(*FileSnapshotSink)
+	if !ok {
+		return false
+	}
+	return fs.stateFile.Close() == nil
 }
